@@ -8,7 +8,7 @@ package engines
 // scores / explanation trees of term, boolean, match and match-all queries on small
 // in-memory indexes.  float64 values travel as bit patterns; math.Log results travel as a
 // per-case table (argument bits -> result bits), the argument being evaluated by the harness
-// (idfArgMirror) and re-evaluated bit for bit by the model.
+// (bm25IdfArgMirror) and re-evaluated bit for bit by the model.
 //
 // Oracle (the property's clauses, on the implementation): scores finite and positive on
 // consistent statistics; more occurrences -> higher; longer field -> lower; rarer term ->
@@ -39,46 +39,46 @@ func init() { Registry["bm25"] = runBM25 }
 
 // ---------------------------------------------------------------- small helpers
 
-func fb(f float64) string { return cq.U(math.Float64bits(f)) }
+func bm25Fb(f float64) string { return cq.U(math.Float64bits(f)) }
 
-type collStats struct{ sumTTF, docCount uint64 }
+type bm25CollStats struct{ sumTTF, docCount uint64 }
 
-func (c *collStats) TotalDocumentCount() uint64        { return c.docCount }
-func (c *collStats) DocumentCount() uint64             { return c.docCount }
-func (c *collStats) SumTotalTermFrequency() uint64     { return c.sumTTF }
-func (c *collStats) Merge(o segment.CollectionStats)   {}
+func (c *bm25CollStats) TotalDocumentCount() uint64      { return c.docCount }
+func (c *bm25CollStats) DocumentCount() uint64           { return c.docCount }
+func (c *bm25CollStats) SumTotalTermFrequency() uint64   { return c.sumTTF }
+func (c *bm25CollStats) Merge(o segment.CollectionStats) {}
 
-type termStats uint64
+type bm25TermStats uint64
 
-func (t termStats) DocumentFrequency() uint64 { return uint64(t) }
+func (t bm25TermStats) DocumentFrequency() uint64 { return uint64(t) }
 
-func statsArg(c *collStats) segment.CollectionStats {
+func bm25StatsArg(c *bm25CollStats) segment.CollectionStats {
 	if c == nil {
 		return nil
 	}
 	return c
 }
 
-func coqStats(c *collStats) string {
+func bm25CoqStats(c *bm25CollStats) string {
 	if c == nil {
 		return "None"
 	}
 	return fmt.Sprintf("(Some (%s, %s))", cq.U(c.sumTTF), cq.U(c.docCount))
 }
 
-// idfArgMirror is the harness's evaluation of the argument handed to math.Log by
+// bm25IdfArgMirror is the harness's evaluation of the argument handed to math.Log by
 // BM25Similarity.Idf on the pinned tree; the Coq model re-evaluates it bit for bit
 // (idf_arg_f), so a slip here shows up as a correspondence mismatch, not as agreement.
-func idfArgMirror(n, N uint64) float64 {
+func bm25IdfArgMirror(n, N uint64) float64 {
 	return 1.0 + float64(N-n) + 0.5/(float64(n)+0.5)
 }
 
-type logTable map[uint64]uint64
+type bm25LogTable map[uint64]uint64
 
-func (t logTable) add(arg float64) {
+func (t bm25LogTable) add(arg float64) {
 	t[math.Float64bits(arg)] = math.Float64bits(math.Log(arg))
 }
-func (t logTable) coq() string {
+func (t bm25LogTable) coq() string {
 	keys := make([]uint64, 0, len(t))
 	for k := range t {
 		keys = append(keys, k)
@@ -91,55 +91,96 @@ func (t logTable) coq() string {
 	return cq.List(it)
 }
 
-func coqStr(s string) string { return "\"" + strings.ReplaceAll(s, "\"", "\"\"") + "\"%string" }
+// bm25San replaces non-finite float64 values (which encoding/json refuses) by strings.
+func bm25San(v interface{}) interface{} {
+	switch x := v.(type) {
+	case float64:
+		if math.IsNaN(x) || math.IsInf(x, 0) {
+			return fmt.Sprint(x)
+		}
+		return x
+	case []float64:
+		out := make([]interface{}, len(x))
+		for i, y := range x {
+			out[i] = bm25San(y)
+		}
+		return out
+	case []interface{}:
+		out := make([]interface{}, len(x))
+		for i, y := range x {
+			out[i] = bm25San(y)
+		}
+		return out
+	case map[string]interface{}:
+		out := make(map[string]interface{}, len(x))
+		for k, y := range x {
+			out[k] = bm25San(y)
+		}
+		return out
+	}
+	return v
+}
 
-func coqTree(e *search.Explanation) string {
+func bm25Add(w *cq.Writer, term, kind string, nontrivial bool, meta map[string]interface{}) {
+	if meta != nil {
+		meta = bm25San(meta).(map[string]interface{})
+	}
+	w.Add(term, kind, nontrivial, meta)
+}
+
+func bm25Fail(w *cq.Writer, key, reason string, input interface{}) {
+	w.OracleFail(key, reason, bm25San(input))
+}
+
+func bm25CoqStr(s string) string { return "\"" + strings.ReplaceAll(s, "\"", "\"\"") + "\"%string" }
+
+func bm25CoqTree(e *search.Explanation) string {
 	if e == nil {
 		return "(ENode 0 \"<nil>\"%string [])"
 	}
 	ch := make([]string, len(e.Children))
 	for i, c := range e.Children {
-		ch[i] = coqTree(c)
+		ch[i] = bm25CoqTree(c)
 	}
-	return fmt.Sprintf("(ENode %s %s %s)", fb(e.Value), coqStr(e.Message), cq.List(ch))
+	return fmt.Sprintf("(ENode %s %s %s)", bm25Fb(e.Value), bm25CoqStr(e.Message), cq.List(ch))
 }
 
-func treeJSON(e *search.Explanation) interface{} {
+func bm25TreeJSON(e *search.Explanation) interface{} {
 	if e == nil {
 		return nil
 	}
 	ch := make([]interface{}, len(e.Children))
 	for i, c := range e.Children {
-		ch[i] = treeJSON(c)
+		ch[i] = bm25TreeJSON(c)
 	}
 	return map[string]interface{}{"value": e.Value, "bits": fmt.Sprintf("%#x", math.Float64bits(e.Value)), "message": e.Message, "children": ch}
 }
 
 // ---------------------------------------------------------------- the message parser (oracle)
 
-// pinnedIdfMessage is the text of the idf node on the pinned tree (defect D4); only this
+// bm25PinnedIdfMessage is the text of the idf node on the pinned tree (defect D4); only this
 // exact text together with a value equal to the as-coded idf maps to the finding's key.
-const pinnedIdfMessage = "idf, computed as log(1 + (N - n + 0.5) / (n + 0.5)) from:"
+const bm25PinnedIdfMessage = "idf, computed as log(1 + (N - n + 0.5) / (n + 0.5)) from:"
 
-type exprParser struct {
+type bm25ExprParser struct {
 	s    string
 	pos  int
 	vars func(string) (float64, bool)
 	err  string
 }
 
-func (p *exprParser) ws() {
+func (p *bm25ExprParser) ws() {
 	for p.pos < len(p.s) && p.s[p.pos] == ' ' {
 		p.pos++
 	}
 }
-func (p *exprParser) fail(m string) float64 {
+func (p *bm25ExprParser) fail(m string) float64 {
 	if p.err == "" {
 		p.err = m
 	}
 	return math.NaN()
 }
-func (p *exprParser) expr() float64 {
+func (p *bm25ExprParser) expr() float64 {
 	v := p.term()
 	for {
 		p.ws()
@@ -157,7 +198,7 @@ func (p *exprParser) expr() float64 {
 		return v
 	}
 }
-func (p *exprParser) term() float64 {
+func (p *bm25ExprParser) term() float64 {
 	v := p.factor()
 	for {
 		p.ws()
@@ -175,10 +216,10 @@ func (p *exprParser) term() float64 {
 		return v
 	}
 }
-func isIdent(c byte) bool {
+func bm25IsIdent(c byte) bool {
 	return c == '_' || (c >= 'a' && c <= 'z') || (c >= 'A' && c <= 'Z') || (c >= '0' && c <= '9')
 }
-func (p *exprParser) factor() float64 {
+func (p *bm25ExprParser) factor() float64 {
 	p.ws()
 	if p.pos >= len(p.s) {
 		return p.fail("unexpected end of formula")
@@ -207,9 +248,9 @@ func (p *exprParser) factor() float64 {
 			return p.fail("bad number " + p.s[st:p.pos])
 		}
 		return v
-	case isIdent(c):
+	case bm25IsIdent(c):
 		st := p.pos
-		for p.pos < len(p.s) && isIdent(p.s[p.pos]) {
+		for p.pos < len(p.s) && bm25IsIdent(p.s[p.pos]) {
 			p.pos++
 		}
 		name := p.s[st:p.pos]
@@ -239,8 +280,8 @@ func (p *exprParser) factor() float64 {
 	return p.fail(fmt.Sprintf("unexpected %q", c))
 }
 
-// childName: the variable a child stands for = its message up to the first ',', ' ' or '('.
-func childName(msg string) string {
+// bm25ChildName: the variable a child stands for = its message up to the first ',', ' ' or '('.
+func bm25ChildName(msg string) string {
 	for i := 0; i < len(msg); i++ {
 		if msg[i] == ',' || msg[i] == ' ' || msg[i] == '(' {
 			return msg[:i]
@@ -249,7 +290,7 @@ func childName(msg string) string {
 	return msg
 }
 
-type nodeVerdict struct {
+type bm25NodeVerdict struct {
 	checked bool    // the message states a formula
 	exact   bool    // value bit-equal to the float64 evaluation of the stated formula
 	within  bool    // value within the rounding bound of a differently associated float64 evaluation
@@ -257,42 +298,42 @@ type nodeVerdict struct {
 	problem string  // parse problem
 }
 
-// stateFormula splits a message into (name, formula text); ok=false when no formula is stated.
-func stateFormula(msg string) (name, formula string, ok bool) {
+// bm25StateFormula splits a message into (name, formula text); ok=false when no formula is stated.
+func bm25StateFormula(msg string) (name, formula string, ok bool) {
 	if msg == "sum of:" {
 		return "sum", "", true
 	}
 	if i := strings.Index(msg, "computed as "); i >= 0 {
 		name = strings.TrimSuffix(strings.TrimSpace(msg[:i]), ",")
 		formula = strings.TrimSuffix(strings.TrimSpace(msg[i+len("computed as "):]), "from:")
-		return childName(name), strings.TrimSpace(formula), true
+		return bm25ChildName(name), strings.TrimSpace(formula), true
 	}
 	return "", "", false
 }
 
-// judgeNode evaluates "value = formula stated in the message applied to the children".
+// bm25JudgeNode evaluates "value = formula stated in the message applied to the children".
 // Exact float64 agreement is demanded where the code evaluates the stated expression itself;
 // the tf and score nodes compute an algebraically equal form (w - w/(1+f*ni)), for which the
 // bound is the forward rounding error of both evaluations: 16 ulp of the node's scale
 // (1 for tf, |boost*idf| for score).
-func judgeNode(e *search.Explanation) nodeVerdict {
-	name, formula, ok := stateFormula(e.Message)
+func bm25JudgeNode(e *search.Explanation) bm25NodeVerdict {
+	name, formula, ok := bm25StateFormula(e.Message)
 	if !ok {
 		if len(e.Children) > 0 {
-			return nodeVerdict{checked: true, problem: "node has children but its message states no formula"}
+			return bm25NodeVerdict{checked: true, problem: "node has children but its message states no formula"}
 		}
-		return nodeVerdict{}
+		return bm25NodeVerdict{}
 	}
 	if e.Message == "sum of:" {
 		var s float64
 		for _, c := range e.Children {
 			s += c.Value
 		}
-		return nodeVerdict{checked: true, stated: s, exact: math.Float64bits(s) == math.Float64bits(e.Value) || (s == e.Value)}
+		return bm25NodeVerdict{checked: true, stated: s, exact: math.Float64bits(s) == math.Float64bits(e.Value) || (s == e.Value)}
 	}
 	vars := func(v string) (float64, bool) {
 		for _, c := range e.Children {
-			if childName(c.Message) == v {
+			if bm25ChildName(c.Message) == v {
 				return c.Value, true
 			}
 		}
@@ -301,16 +342,16 @@ func judgeNode(e *search.Explanation) nodeVerdict {
 		}
 		return 0, false
 	}
-	p := &exprParser{s: formula, vars: vars}
+	p := &bm25ExprParser{s: formula, vars: vars}
 	v := p.expr()
 	p.ws()
 	if p.err == "" && p.pos != len(p.s) {
 		p.fail("trailing text in formula: " + p.s[p.pos:])
 	}
 	if p.err != "" {
-		return nodeVerdict{checked: true, problem: p.err + " (formula: " + formula + ")"}
+		return bm25NodeVerdict{checked: true, problem: p.err + " (formula: " + formula + ")"}
 	}
-	nv := nodeVerdict{checked: true, stated: v}
+	nv := bm25NodeVerdict{checked: true, stated: v}
 	if math.Float64bits(v) == math.Float64bits(e.Value) || v == e.Value || (math.IsNaN(v) && math.IsNaN(e.Value)) {
 		nv.exact = true
 		return nv
@@ -339,32 +380,32 @@ func judgeNode(e *search.Explanation) nodeVerdict {
 	return nv
 }
 
-// checkTree runs judgeNode on every node; failures are reported through w.
-func checkTree(w *cq.Writer, root *search.Explanation, ctx interface{}) {
+// bm25CheckTree runs bm25JudgeNode on every node; failures are reported through w.
+func bm25CheckTree(w *cq.Writer, root *search.Explanation, ctx interface{}) {
 	var walk func(e *search.Explanation)
 	walk = func(e *search.Explanation) {
 		if e == nil {
 			return
 		}
-		nv := judgeNode(e)
+		nv := bm25JudgeNode(e)
 		if nv.checked {
 			w.OracleEval(1)
 			switch {
 			case nv.problem != "":
-				w.OracleFail("explain-message-unparsed", nv.problem, map[string]interface{}{"node": treeJSON(e), "context": ctx})
+				bm25Fail(w, "explain-message-unparsed", nv.problem, map[string]interface{}{"node": bm25TreeJSON(e), "context": ctx})
 			case nv.exact:
 				w.Count("explain_nodes_exact", 1)
 			case nv.within:
 				w.Count("explain_nodes_within_rounding", 1)
 			default:
 				key := "explain-node-unfaithful"
-				if e.Message == pinnedIdfMessage && len(e.Children) == 2 && e.Children[0].Value < 1<<53 && e.Children[1].Value < 1<<53 &&
+				if e.Message == bm25PinnedIdfMessage && len(e.Children) == 2 && e.Children[0].Value < 1<<53 && e.Children[1].Value < 1<<53 &&
 					e.Children[0].Value <= e.Children[1].Value &&
-					math.Float64bits(e.Value) == math.Float64bits(math.Log(idfArgMirror(uint64(e.Children[0].Value), uint64(e.Children[1].Value)))) {
+					math.Float64bits(e.Value) == math.Float64bits(math.Log(bm25IdfArgMirror(uint64(e.Children[0].Value), uint64(e.Children[1].Value)))) {
 					key = "idf-explain-formula"
 				}
-				w.OracleFail(key, fmt.Sprintf("node value %v (%#x) but the formula stated in its message gives %v (%#x)", e.Value, math.Float64bits(e.Value), nv.stated, math.Float64bits(nv.stated)),
-					map[string]interface{}{"node": treeJSON(e), "context": ctx})
+				bm25Fail(w, key, fmt.Sprintf("node value %v (%#x) but the formula stated in its message gives %v (%#x)", e.Value, math.Float64bits(e.Value), nv.stated, math.Float64bits(nv.stated)),
+					map[string]interface{}{"node": bm25TreeJSON(e), "context": ctx})
 			}
 		}
 		for _, c := range e.Children {
@@ -376,70 +417,70 @@ func checkTree(w *cq.Writer, root *search.Explanation, ctx interface{}) {
 
 // ---------------------------------------------------------------- exact reals for the saturation classes
 
-func bf(x float64) *big.Float { return new(big.Float).SetPrec(300).SetFloat64(x) }
+func bm25Bf(x float64) *big.Float { return new(big.Float).SetPrec(300).SetFloat64(x) }
 
-// realScore: w*x/(1+x) with x = f/(k1*((1-b)+b*dl/avgdl)), in 300-bit arithmetic from the
+// bm25RealScore: w*x/(1+x) with x = f/(k1*((1-b)+b*dl/avgdl)), in 300-bit arithmetic from the
 // float64 parameters (w as given).  ok=false when the length normalisation vanishes.
-func realScore(w, k1, b float64, f int, dl uint32, avgdl float64) (*big.Float, bool) {
-	one := bf(1)
-	L := new(big.Float).SetPrec(300).Sub(one, bf(b))
-	t := new(big.Float).SetPrec(300).Mul(bf(b), bf(float64(dl)))
-	t.Quo(t, bf(avgdl))
+func bm25RealScore(w, k1, b float64, f int, dl uint32, avgdl float64) (*big.Float, bool) {
+	one := bm25Bf(1)
+	L := new(big.Float).SetPrec(300).Sub(one, bm25Bf(b))
+	t := new(big.Float).SetPrec(300).Mul(bm25Bf(b), bm25Bf(float64(dl)))
+	t.Quo(t, bm25Bf(avgdl))
 	L.Add(L, t)
-	den := new(big.Float).SetPrec(300).Mul(bf(k1), L)
+	den := new(big.Float).SetPrec(300).Mul(bm25Bf(k1), L)
 	if den.Sign() <= 0 {
 		return nil, false
 	}
-	x := new(big.Float).SetPrec(300).Quo(bf(float64(f)), den)
+	x := new(big.Float).SetPrec(300).Quo(bm25Bf(float64(f)), den)
 	r := new(big.Float).SetPrec(300).Quo(x, new(big.Float).SetPrec(300).Add(one, x))
-	return r.Mul(r, bf(w)), true
+	return r.Mul(r, bm25Bf(w)), true
 }
 
-// gapResolvable: the real scores differ by more than the forward error of the two float64
+// bm25GapResolvable: the real scores differ by more than the forward error of the two float64
 // evaluations (8 ulp of w each): then the float64 scores must be strictly ordered.
-func gapResolvable(hi, lo *big.Float, w float64) bool {
+func bm25GapResolvable(hi, lo *big.Float, w float64) bool {
 	gap := new(big.Float).SetPrec(300).Sub(hi, lo)
-	bound := new(big.Float).SetPrec(300).Mul(bf(math.Abs(w)), bf(32.0/(1<<53)))
+	bound := new(big.Float).SetPrec(300).Mul(bm25Bf(math.Abs(w)), bm25Bf(32.0/(1<<53)))
 	return gap.Cmp(bound) > 0
 }
 
-type scoreParams struct {
+type bm25ScoreParams struct {
 	k1, b, boost float64
-	st           *collStats
+	st           *bm25CollStats
 	n            uint64
 }
 
 // consistent: statistics a real index can produce (every document of the collection has at
 // least one token, no document is longer than the collection, df <= document count) with
 // parameters inside the law's hypotheses.
-func (p scoreParams) consistent() bool {
+func (p bm25ScoreParams) consistent() bool {
 	return p.st != nil && p.st.docCount >= 1 && p.st.sumTTF >= p.st.docCount && p.n >= 1 && p.n <= p.st.docCount &&
-		p.k1 > 0 && p.k1 <= 1e3 && p.b >= 0 && p.b <= 1 && p.boost > 0 && p.boost < 1e100 && p.boost > 1e-100 && p.st.docCount < 1<<53 && p.st.sumTTF < 1<<53
+		p.k1 > 0 && p.k1 <= 1e3 && p.b >= 0 && p.b <= 1 && p.boost > 0 && p.boost < 1e100 && p.boost > 1e-100 && p.st.docCount < 1<<50 && p.st.sumTTF < 1<<53
 }
 
-func (p scoreParams) sim() *similarity.BM25Similarity {
+func (p bm25ScoreParams) sim() *similarity.BM25Similarity {
 	return similarity.NewBM25SimilarityBK1(p.b, p.k1)
 }
 
-func (p scoreParams) scorer() search.Scorer {
-	return p.sim().Scorer(p.boost, statsArg(p.st), termStats(p.n))
+func (p bm25ScoreParams) scorer() search.Scorer {
+	return p.sim().Scorer(p.boost, bm25StatsArg(p.st), bm25TermStats(p.n))
 }
 
-func (p scoreParams) coq() string {
-	return fmt.Sprintf("%s %s %s %s %s", fb(p.k1), fb(p.b), fb(p.boost), coqStats(p.st), cq.U(p.n))
+func (p bm25ScoreParams) coq() string {
+	return fmt.Sprintf("%s %s %s %s %s", bm25Fb(p.k1), bm25Fb(p.b), bm25Fb(p.boost), bm25CoqStats(p.st), cq.U(p.n))
 }
 
-func (p scoreParams) logs() logTable {
-	t := logTable{}
+func (p bm25ScoreParams) logs() bm25LogTable {
+	t := bm25LogTable{}
 	var N uint64
 	if p.st != nil {
 		N = p.st.docCount
 	}
-	t.add(idfArgMirror(p.n, N))
+	t.add(bm25IdfArgMirror(p.n, N))
 	return t
 }
 
-func (p scoreParams) meta() map[string]interface{} {
+func (p bm25ScoreParams) meta() map[string]interface{} {
 	m := map[string]interface{}{"k1": p.k1, "b": p.b, "boost": p.boost, "n": p.n}
 	if p.st != nil {
 		m["sumTTF"] = p.st.sumTTF
@@ -450,7 +491,7 @@ func (p scoreParams) meta() map[string]interface{} {
 	return m
 }
 
-func normOf(dl uint32) float64 {
+func bm25NormOf(dl uint32) float64 {
 	return float64(similarity.NewBM25Similarity().ComputeNorm(int(dl)))
 }
 
@@ -458,7 +499,7 @@ func normOf(dl uint32) float64 {
 
 func runBM25(o Opts) error {
 	rng := rand.New(rand.NewSource(o.Seed))
-	w := cq.New(o.Out, "From Bluge Require Import Search.BM25F Search.Explain Search.BM25Corr.", "bcase", 120)
+	w := cq.New(o.Out, "From Bluge Require Import Search.BM25F Search.Explain Search.BM25Corr.", "bcase", 200)
 	scale := 1
 	if o.Thorough() {
 		scale = 10
@@ -498,16 +539,19 @@ func bm25Idf(o Opts, rng *rand.Rand, w *cq.Writer, scale int) {
 	w.Count("idf_pairs", len(pairs))
 	for _, p := range pairs {
 		out := sim.Idf(p.n, p.N)
-		arg := idfArgMirror(p.n, p.N)
-		t := logTable{}
+		arg := bm25IdfArgMirror(p.n, p.N)
+		t := bm25LogTable{}
 		t.add(arg)
 		inHyp := p.n >= 1 && p.n <= p.N
-		w.Add(fmt.Sprintf("CIdf %s %s %s %s %s", cq.U(p.n), cq.U(p.N), fb(arg), fb(out), t.coq()), "idf", inHyp,
+		bm25Add(w, fmt.Sprintf("CIdf %s %s %s %s %s", cq.U(p.n), cq.U(p.N), bm25Fb(arg), bm25Fb(out), t.coq()), "idf", inHyp,
 			map[string]interface{}{"n": p.n, "N": p.N, "idf": out})
 		if inHyp {
 			w.OracleEval(1)
-			if !(out > 0) || math.IsInf(out, 0) || math.IsNaN(out) {
-				w.OracleFail("law-idf-positive-finite", fmt.Sprintf("Idf(%d,%d) = %v", p.n, p.N, out), p)
+			if out == 0 && p.n == p.N && p.n >= 1<<51 {
+				// 0.5/(n+0.5) < 2^-53: the argument of the logarithm rounds to 1 (needs 2^51 documents)
+				w.Count("idf_saturated_zero", 1)
+			} else if !(out > 0) || math.IsInf(out, 0) || math.IsNaN(out) {
+				bm25Fail(w, "law-idf-positive-finite", fmt.Sprintf("Idf(%d,%d) = %v", p.n, p.N, out), []uint64{p.n, p.N})
 			}
 		} else {
 			w.Count("idf_outside_hypotheses", 1)
@@ -530,17 +574,17 @@ func bm25Idf(o Opts, rng *rand.Rand, w *cq.Writer, scale int) {
 				a, b := sim.Idf(cl[i], N), sim.Idf(cl[j], N)
 				w.OracleEval(1)
 				if a < b || math.IsNaN(a) || math.IsNaN(b) {
-					w.OracleFail("law-idf-anti-df", fmt.Sprintf("Idf(%d,%d)=%v < Idf(%d,%d)=%v", cl[i], N, a, cl[j], N, b), []uint64{cl[i], cl[j], N})
+					bm25Fail(w, "law-idf-anti-df", fmt.Sprintf("Idf(%d,%d)=%v < Idf(%d,%d)=%v", cl[i], N, a, cl[j], N, b), []uint64{cl[i], cl[j], N})
 				} else if a == b {
 					// strict in the reals; equal float64 values are legitimate only when the arguments of the
 					// logarithm are closer than the rounding of the argument and of math.Log resolves
-					a1 := new(big.Float).SetPrec(300).SetFloat64(idfArgMirror(cl[i], N))
-					a2 := new(big.Float).SetPrec(300).SetFloat64(idfArgMirror(cl[j], N))
+					a1 := new(big.Float).SetPrec(300).SetFloat64(bm25IdfArgMirror(cl[i], N))
+					a2 := new(big.Float).SetPrec(300).SetFloat64(bm25IdfArgMirror(cl[j], N))
 					rel := new(big.Float).SetPrec(300).Sub(a1, a2)
 					rel.Quo(rel, a1)
 					thr := math.Max(1, a) / (1 << 45)
-					if rel.Cmp(bf(thr)) > 0 {
-						w.OracleFail("law-idf-anti-df", fmt.Sprintf("Idf(%d,%d) = Idf(%d,%d) = %v although the arguments differ well above rounding", cl[i], N, cl[j], N, a), []uint64{cl[i], cl[j], N})
+					if rel.Cmp(bm25Bf(thr)) > 0 {
+						bm25Fail(w, "law-idf-anti-df", fmt.Sprintf("Idf(%d,%d) = Idf(%d,%d) = %v although the arguments differ well above rounding", cl[i], N, cl[j], N, a), []uint64{cl[i], cl[j], N})
 					} else {
 						w.Count("idf_saturated_equal", 1)
 					}
@@ -549,22 +593,22 @@ func bm25Idf(o Opts, rng *rand.Rand, w *cq.Writer, scale int) {
 		}
 	}
 	// IdfExplainTerm + AverageFieldLength
-	sts := []*collStats{nil, {10, 1}, {100, 10}, {0, 0}, {5, 0}, {1, 1 << 40}, {1 << 60, 1}, {1<<64 - 1, 3}, {12345, 678}}
+	sts := []*bm25CollStats{nil, {10, 1}, {100, 10}, {0, 0}, {5, 0}, {1, 1 << 40}, {1 << 60, 1}, {1<<64 - 1, 3}, {12345, 678}}
 	for _, st := range sts {
-		avg := sim.AverageFieldLength(statsArg(st))
-		w.Add(fmt.Sprintf("CAvg %s %s", coqStats(st), fb(avg)), "avg", st != nil && st.docCount > 0, map[string]interface{}{"avg": avg})
+		avg := sim.AverageFieldLength(bm25StatsArg(st))
+		bm25Add(w, fmt.Sprintf("CAvg %s %s", bm25CoqStats(st), bm25Fb(avg)), "avg", st != nil && st.docCount > 0, map[string]interface{}{"avg": avg})
 		for _, n := range []uint64{0, 1, 3, 10} {
-			e := sim.IdfExplainTerm(statsArg(st), termStats(n))
+			e := sim.IdfExplainTerm(bm25StatsArg(st), bm25TermStats(n))
 			var N uint64
 			if st != nil {
 				N = st.docCount
 			}
-			t := logTable{}
-			t.add(idfArgMirror(n, N))
-			w.Add(fmt.Sprintf("CIdfExplain %s %s %s %s", coqStats(st), cq.U(n), t.coq(), coqTree(e)), "idf-explain", n >= 1 && n <= N,
+			t := bm25LogTable{}
+			t.add(bm25IdfArgMirror(n, N))
+			bm25Add(w, fmt.Sprintf("CIdfExplain %s %s %s %s", bm25CoqStats(st), cq.U(n), t.coq(), bm25CoqTree(e)), "idf-explain", n >= 1 && n <= N,
 				map[string]interface{}{"n": n, "N": N})
 			if n >= 1 && n <= N {
-				checkTree(w, e, map[string]interface{}{"call": "IdfExplainTerm", "n": n, "N": N})
+				bm25CheckTree(w, e, map[string]interface{}{"call": "IdfExplainTerm", "n": n, "N": N})
 			}
 		}
 	}
@@ -586,25 +630,25 @@ func bm25Norm(o Opts, rng *rand.Rand, w *cq.Writer) {
 			continue
 		}
 		dl := math.Float32bits(float32(float64(nf)))
-		w.Add(fmt.Sprintf("CNorm %s %s %s", cq.I(v), cq.U(uint64(bits)), cq.U(uint64(dl))), "norm", v > 0, map[string]interface{}{"numTerms": v})
+		bm25Add(w, fmt.Sprintf("CNorm %s %s %s", cq.I(v), cq.U(uint64(bits)), cq.U(uint64(dl))), "norm", v > 0, map[string]interface{}{"numTerms": v})
 		w.OracleEval(1)
 		if v >= 0 && v < 1<<32 && uint32(v) != dl {
-			w.OracleFail("norm-roundtrip", fmt.Sprintf("field length %d comes back as %d", v, dl), v)
+			bm25Fail(w, "norm-roundtrip", fmt.Sprintf("field length %d comes back as %d", v, dl), v)
 		}
 	}
 }
 
 var bm25K1B = [][2]float64{{1.2, 0.75}, {1.2, 0}, {1.2, 1}, {0.5, 0.3}, {2, 0.9}, {1e-3, 0.5}, {100, 0.75}, {1.2, 0.75}}
 var bm25Boosts = []float64{1, 1, 2, 0.5, 3.7, 1e-3, 1e6, 0.1}
-var bm25Stats = []*collStats{{10, 1}, {100, 10}, {1000, 100}, {12345, 678}, {1 << 20, 1 << 10}, {1 << 40, 1 << 20}, {3, 3}, {7, 2},
+var bm25Stats = []*bm25CollStats{{10, 1}, {100, 10}, {1000, 100}, {12345, 678}, {1 << 20, 1 << 10}, {1 << 40, 1 << 20}, {3, 3}, {7, 2},
 	nil, {0, 0}, {5, 0}, {1, 1 << 40}, {1 << 60, 1}, {0, 5}}
 var bm25Freqs = []int{1, 1, 2, 3, 5, 10, 100, 1 << 10, 1 << 20, 0, -1}
-var bm25Dls = []uint32{0, 1, 2, 3, 7, 10, 100, 1000, 1 << 16, 1 << 20, 1<<23 - 1, 1 << 23, 1<<24 + 1, 1<<31 - 1}
+var bm25Dls = []uint32{0, 1, 2, 3, 7, 10, 100, 1000, 1 << 16, 1 << 20, 1<<23 - 1, 1 << 23, 1<<24 + 1, 0x7f7fffff, 0x7f800000}
 
-func randParams(rng *rand.Rand, consistentOnly bool) scoreParams {
+func bm25RandParams(rng *rand.Rand, consistentOnly bool) bm25ScoreParams {
 	for {
 		kb := bm25K1B[rng.Intn(len(bm25K1B))]
-		p := scoreParams{k1: kb[0], b: kb[1], boost: bm25Boosts[rng.Intn(len(bm25Boosts))], st: bm25Stats[rng.Intn(len(bm25Stats))]}
+		p := bm25ScoreParams{k1: kb[0], b: kb[1], boost: bm25Boosts[rng.Intn(len(bm25Boosts))], st: bm25Stats[rng.Intn(len(bm25Stats))]}
 		var N uint64 = 10
 		if p.st != nil {
 			N = p.st.docCount
@@ -634,7 +678,7 @@ func randParams(rng *rand.Rand, consistentOnly bool) scoreParams {
 func bm25Direct(o Opts, rng *rand.Rand, w *cq.Writer, scale int) {
 	weird := []float64{math.NaN(), math.Inf(1), math.Inf(-1), -1.5, 1e300, 1e-50, 0.5, math.Copysign(0, -1)}
 	for i := 0; i < 260*scale; i++ {
-		p := randParams(rng, i%3 != 0)
+		p := bm25RandParams(rng, i%3 != 0)
 		sc := p.scorer()
 		freq := bm25Freqs[rng.Intn(len(bm25Freqs))]
 		var norm float64
@@ -649,17 +693,17 @@ func bm25Direct(o Opts, rng *rand.Rand, w *cq.Writer, scale int) {
 			if rng.Intn(3) == 0 {
 				dl = uint32(rng.Intn(200))
 			}
-			norm = normOf(dl)
+			norm = bm25NormOf(dl)
 		}
 		score := sc.Score(freq, norm)
 		inHyp := p.consistent() && freq >= 1 && !weirdNorm && uint64(dl) <= p.st.sumTTF && uint64(freq) <= uint64(dl)
 		meta := p.meta()
 		meta["freq"], meta["dl"], meta["norm_bits"], meta["score"] = freq, dl, fmt.Sprintf("%#x", math.Float64bits(norm)), score
-		w.Add(fmt.Sprintf("CScore %s %s %d %s %s", p.coq(), p.logs().coq(), freq, fb(norm), fb(score)), "score", inHyp, meta)
+		bm25Add(w, fmt.Sprintf("CScore %s %s %s %s %s", p.coq(), p.logs().coq(), cq.I(freq), bm25Fb(norm), bm25Fb(score)), "score", inHyp, meta)
 		if inHyp {
 			w.OracleEval(1)
 			if !(score > 0) || math.IsInf(score, 0) || math.IsNaN(score) {
-				w.OracleFail("law-score-positive-finite", fmt.Sprintf("score %v", score), meta)
+				bm25Fail(w, "law-score-positive-finite", fmt.Sprintf("score %v", score), meta)
 			}
 		} else {
 			w.Count("score_outside_hypotheses", 1)
@@ -676,13 +720,13 @@ func bm25Direct(o Opts, rng *rand.Rand, w *cq.Writer, scale int) {
 		}
 		if i%2 == 0 {
 			e := sc.Explain(freq, norm)
-			w.Add(fmt.Sprintf("CExplain %s %s %d %s %s", p.coq(), p.logs().coq(), freq, fb(norm), coqTree(e)), "explain", inHyp, meta)
+			bm25Add(w, fmt.Sprintf("CExplain %s %s %s %s %s", p.coq(), p.logs().coq(), cq.I(freq), bm25Fb(norm), bm25CoqTree(e)), "explain", inHyp, meta)
 			w.OracleEval(1)
 			if math.Float64bits(e.Value) != math.Float64bits(score) && !(math.IsNaN(e.Value) && math.IsNaN(score)) {
-				w.OracleFail("explain-root-not-score", fmt.Sprintf("Explain value %v, Score %v", e.Value, score), meta)
+				bm25Fail(w, "explain-root-not-score", fmt.Sprintf("Explain value %v, Score %v", e.Value, score), meta)
 			}
 			if inHyp {
-				checkTree(w, e, meta)
+				bm25CheckTree(w, e, meta)
 			}
 		}
 	}
@@ -691,9 +735,9 @@ func bm25Direct(o Opts, rng *rand.Rand, w *cq.Writer, scale int) {
 // ---- the laws on pairs, direct calls (consistent statistics only)
 func bm25Laws(o Opts, rng *rand.Rand, w *cq.Writer, scale int) {
 	for i := 0; i < 400*scale; i++ {
-		p := randParams(rng, true)
+		p := bm25RandParams(rng, true)
 		sc := p.scorer()
-		maxDl := uint64(1<<31 - 1)
+		maxDl := uint64(0x7f7fffff) // larger lengths are float32 NaN bit patterns (payloads are outside the model)
 		if p.st.sumTTF < maxDl {
 			maxDl = p.st.sumTTF
 		}
@@ -722,26 +766,26 @@ func bm25Laws(o Opts, rng *rand.Rand, w *cq.Writer, scale int) {
 			return f
 		}
 		f := pickF()
-		avgdl := p.sim().AverageFieldLength(statsArg(p.st))
+		avgdl := p.sim().AverageFieldLength(bm25StatsArg(p.st))
 		weight := p.boost * p.sim().Idf(p.n, p.st.docCount)
 		meta := p.meta()
 		meta["freq"], meta["dl"] = f, dl
-		s := sc.Score(f, normOf(dl))
+		s := sc.Score(f, bm25NormOf(dl))
 
 		// more occurrences -> higher
 		f2 := f + 1 + rng.Intn(3)
 		if rng.Intn(3) == 0 {
 			f2 = f * 2
 		}
-		s2 := sc.Score(f2, normOf(dl))
+		s2 := sc.Score(f2, bm25NormOf(dl))
 		w.OracleEval(1)
 		if s2 < s || math.IsNaN(s) || math.IsNaN(s2) {
-			w.OracleFail("law-mono-freq", fmt.Sprintf("freq %d scores %v, freq %d scores %v", f, s, f2, s2), meta)
+			bm25Fail(w, "law-mono-freq", fmt.Sprintf("freq %d scores %v, freq %d scores %v", f, s, f2, s2), meta)
 		} else if s2 == s {
-			r1, ok1 := realScore(weight, p.k1, p.b, f, dl, avgdl)
-			r2, ok2 := realScore(weight, p.k1, p.b, f2, dl, avgdl)
-			if ok1 && ok2 && gapResolvable(r2, r1, weight) {
-				w.OracleFail("law-mono-freq", fmt.Sprintf("freq %d and freq %d both score %v although the real scores differ above rounding", f, f2, s), meta)
+			r1, ok1 := bm25RealScore(weight, p.k1, p.b, f, dl, avgdl)
+			r2, ok2 := bm25RealScore(weight, p.k1, p.b, f2, dl, avgdl)
+			if ok1 && ok2 && bm25GapResolvable(r2, r1, weight) {
+				bm25Fail(w, "law-mono-freq", fmt.Sprintf("freq %d and freq %d both score %v although the real scores differ above rounding", f, f2, s), meta)
 			} else {
 				w.Count("saturated:freq", 1)
 			}
@@ -752,15 +796,15 @@ func bm25Laws(o Opts, rng *rand.Rand, w *cq.Writer, scale int) {
 		if rng.Intn(3) == 0 && dl < 1<<30 {
 			dl2 = dl * 2
 		}
-		s3 := sc.Score(f, normOf(dl2))
+		s3 := sc.Score(f, bm25NormOf(dl2))
 		w.OracleEval(1)
 		if s3 > s || math.IsNaN(s3) {
-			w.OracleFail("law-anti-len", fmt.Sprintf("dl %d scores %v, dl %d scores %v", dl, s, dl2, s3), meta)
+			bm25Fail(w, "law-anti-len", fmt.Sprintf("dl %d scores %v, dl %d scores %v", dl, s, dl2, s3), meta)
 		} else if s3 == s && p.b > 0 {
-			r1, ok1 := realScore(weight, p.k1, p.b, f, dl, avgdl)
-			r2, ok2 := realScore(weight, p.k1, p.b, f, dl2, avgdl)
-			if ok1 && ok2 && gapResolvable(r1, r2, weight) {
-				w.OracleFail("law-anti-len", fmt.Sprintf("dl %d and dl %d both score %v although the real scores differ above rounding", dl, dl2, s), meta)
+			r1, ok1 := bm25RealScore(weight, p.k1, p.b, f, dl, avgdl)
+			r2, ok2 := bm25RealScore(weight, p.k1, p.b, f, dl2, avgdl)
+			if ok1 && ok2 && bm25GapResolvable(r1, r2, weight) {
+				bm25Fail(w, "law-anti-len", fmt.Sprintf("dl %d and dl %d both score %v although the real scores differ above rounding", dl, dl2, s), meta)
 			} else {
 				w.Count("saturated:len", 1)
 			}
@@ -770,14 +814,14 @@ func bm25Laws(o Opts, rng *rand.Rand, w *cq.Writer, scale int) {
 		if p.n < p.st.docCount {
 			q := p
 			q.n = p.n + 1 + uint64(rng.Int63n(int64(p.st.docCount-p.n)))
-			s4 := q.scorer().Score(f, normOf(dl))
+			s4 := q.scorer().Score(f, bm25NormOf(dl))
 			w.OracleEval(1)
 			if s4 > s || math.IsNaN(s4) {
-				w.OracleFail("law-anti-df", fmt.Sprintf("n %d scores %v, n %d scores %v", p.n, s, q.n, s4), meta)
+				bm25Fail(w, "law-anti-df", fmt.Sprintf("n %d scores %v, n %d scores %v", p.n, s, q.n, s4), meta)
 			} else if s4 == s {
 				i1, i2 := p.sim().Idf(p.n, p.st.docCount), p.sim().Idf(q.n, p.st.docCount)
 				if i1 > i2 && (i1-i2) > 64*i1/(1<<53) {
-					w.OracleFail("law-anti-df", fmt.Sprintf("n %d and n %d both score %v although the weights differ above rounding", p.n, q.n, s), meta)
+					bm25Fail(w, "law-anti-df", fmt.Sprintf("n %d and n %d both score %v although the weights differ above rounding", p.n, q.n, s), meta)
 				} else {
 					w.Count("saturated:df", 1)
 				}
@@ -788,19 +832,19 @@ func bm25Laws(o Opts, rng *rand.Rand, w *cq.Writer, scale int) {
 		for _, c := range []float64{2, 4, 0.5, 3, 1.7} {
 			q := p
 			q.boost = p.boost * c
-			s5 := q.scorer().Score(f, normOf(dl))
+			s5 := q.scorer().Score(f, bm25NormOf(dl))
 			w.OracleEval(1)
 			pow2 := c == 2 || c == 4 || c == 0.5
 			if pow2 {
 				if s5 != c*s {
-					w.OracleFail("law-boost-linear", fmt.Sprintf("boost %v scores %v, boost %v scores %v (factor %v)", p.boost, s, q.boost, s5, c), meta)
+					bm25Fail(w, "law-boost-linear", fmt.Sprintf("boost %v scores %v, boost %v scores %v (factor %v)", p.boost, s, q.boost, s5, c), meta)
 				}
 				continue
 			}
 			if s5 < s {
-				w.OracleFail("law-boost-linear", fmt.Sprintf("boost %v scores %v, larger boost %v scores %v", p.boost, s, q.boost, s5), meta)
+				bm25Fail(w, "law-boost-linear", fmt.Sprintf("boost %v scores %v, larger boost %v scores %v", p.boost, s, q.boost, s5), meta)
 			} else if math.Abs(s5-c*s) > 32*math.Abs(c*weight)/(1<<53) {
-				w.OracleFail("law-boost-linear", fmt.Sprintf("boost %v scores %v, boost %v scores %v: not the factor %v within rounding", p.boost, s, q.boost, s5, c), meta)
+				bm25Fail(w, "law-boost-linear", fmt.Sprintf("boost %v scores %v, boost %v scores %v: not the factor %v within rounding", p.boost, s, q.boost, s5, c), meta)
 			} else {
 				w.Count("boost_linear_within_rounding", 1)
 			}
@@ -826,8 +870,8 @@ func bm25Composite(o Opts, rng *rand.Rand, w *cq.Writer, scale int) {
 			}
 			ex := search.NewExplanation(scores[j], fmt.Sprintf("part %d", j))
 			ms[j] = &search.DocumentMatch{Score: scores[j], Explanation: ex}
-			sb[j] = fb(scores[j])
-			parts[j] = cq.Pair(fb(scores[j]), coqTree(ex))
+			sb[j] = bm25Fb(scores[j])
+			parts[j] = cq.Pair(bm25Fb(scores[j]), bm25CoqTree(ex))
 		}
 		var cs *similarity.CompositeSumScorer
 		if boost == 1 && rng.Intn(2) == 0 {
@@ -837,9 +881,9 @@ func bm25Composite(o Opts, rng *rand.Rand, w *cq.Writer, scale int) {
 		}
 		out := cs.ScoreComposite(ms)
 		meta := map[string]interface{}{"boost": boost, "scores": scores, "out": out}
-		w.Add(fmt.Sprintf("CComposite %s %s %s", fb(boost), cq.List(sb), fb(out)), "composite", k > 0, meta)
+		bm25Add(w, fmt.Sprintf("CComposite %s %s %s", bm25Fb(boost), cq.List(sb), bm25Fb(out)), "composite", k > 0, meta)
 		e := cs.ExplainComposite(ms)
-		w.Add(fmt.Sprintf("CCompositeExplain %s %s %s", fb(boost), cq.List(parts), coqTree(e)), "composite-explain", k > 0, meta)
+		bm25Add(w, fmt.Sprintf("CCompositeExplain %s %s %s", bm25Fb(boost), cq.List(parts), bm25CoqTree(e)), "composite-explain", k > 0, meta)
 		// the law: sum of the parts times the boost
 		var sum float64
 		for _, s := range scores {
@@ -847,46 +891,46 @@ func bm25Composite(o Opts, rng *rand.Rand, w *cq.Writer, scale int) {
 		}
 		w.OracleEval(2)
 		if math.Float64bits(sum*boost) != math.Float64bits(out) && !(math.IsNaN(out) && math.IsNaN(sum*boost)) {
-			w.OracleFail("law-composite-sum", fmt.Sprintf("composite %v, sum of parts times boost %v", out, sum*boost), meta)
+			bm25Fail(w, "law-composite-sum", fmt.Sprintf("composite %v, sum of parts times boost %v", out, sum*boost), meta)
 		}
 		if math.Float64bits(e.Value) != math.Float64bits(out) && !(math.IsNaN(out) && math.IsNaN(e.Value)) {
-			w.OracleFail("explain-root-not-score", fmt.Sprintf("ExplainComposite value %v, ScoreComposite %v", e.Value, out), meta)
+			bm25Fail(w, "explain-root-not-score", fmt.Sprintf("ExplainComposite value %v, ScoreComposite %v", e.Value, out), meta)
 		}
 		if k > 0 && !math.IsInf(sum, 0) && !math.IsNaN(sum) {
-			checkTree(w, e, meta)
+			bm25CheckTree(w, e, meta)
 		}
 	}
 	for _, c := range []float64{1, 0, 2.5, -1, 1e300} {
 		cs := similarity.ConstantScorer(c)
 		e, ce := cs.Explain(3, 1), cs.ExplainComposite(nil)
-		w.Add(fmt.Sprintf("CConstant %s %s %s %s %s", fb(c), fb(cs.Score(3, 1)), fb(cs.ScoreComposite(nil)), coqTree(e), coqTree(ce)), "constant", true,
+		bm25Add(w, fmt.Sprintf("CConstant %s %s %s %s %s", bm25Fb(c), bm25Fb(cs.Score(3, 1)), bm25Fb(cs.ScoreComposite(nil)), bm25CoqTree(e), bm25CoqTree(ce)), "constant", true,
 			map[string]interface{}{"c": c})
-		checkTree(w, e, "constant")
+		bm25CheckTree(w, e, "constant")
 	}
 }
 
 // ---------------------------------------------------------------- end to end
 
-type e2eDoc struct {
+type bm25E2eDoc struct {
 	id     string
 	body   []string
 	title  []string
 	counts map[string]map[string]int // field -> term -> freq
 }
 
-type e2eQuery struct {
+type bm25E2eQuery struct {
 	kind     string // term | bool | match | matchall
 	field    string
 	term     string
 	text     string
 	and      bool
 	boost    float64 // 0 = not set
-	musts    []*e2eQuery
-	shoulds  []*e2eQuery
-	mustNots []*e2eQuery
+	musts    []*bm25E2eQuery
+	shoulds  []*bm25E2eQuery
+	mustNots []*bm25E2eQuery
 }
 
-func (q *e2eQuery) build() bluge.Query {
+func (q *bm25E2eQuery) build() bluge.Query {
 	switch q.kind {
 	case "term":
 		t := bluge.NewTermQuery(q.term).SetField(q.field)
@@ -926,7 +970,7 @@ func (q *e2eQuery) build() bluge.Query {
 	return b
 }
 
-func (q *e2eQuery) desc() interface{} {
+func (q *bm25E2eQuery) desc() interface{} {
 	m := map[string]interface{}{"kind": q.kind}
 	if q.boost != 0 {
 		m["boost"] = q.boost
@@ -937,7 +981,7 @@ func (q *e2eQuery) desc() interface{} {
 	case "match":
 		m["field"], m["text"], m["and"] = q.field, q.text, q.and
 	case "bool":
-		for name, l := range map[string][]*e2eQuery{"musts": q.musts, "shoulds": q.shoulds, "mustNots": q.mustNots} {
+		for name, l := range map[string][]*bm25E2eQuery{"musts": q.musts, "shoulds": q.shoulds, "mustNots": q.mustNots} {
 			if len(l) > 0 {
 				d := make([]interface{}, len(l))
 				for i, c := range l {
@@ -950,19 +994,19 @@ func (q *e2eQuery) desc() interface{} {
 	return m
 }
 
-func (q *e2eQuery) withBoost(b float64) *e2eQuery {
+func (q *bm25E2eQuery) withBoost(b float64) *bm25E2eQuery {
 	c := *q
 	c.boost = b
 	return &c
 }
 
-type e2eHit struct {
+type bm25E2eHit struct {
 	score float64
 	expl  *search.Explanation
 }
 
-func e2eSearch(w *cq.Writer, rd *bluge.Reader, q bluge.Query, explain bool, desc interface{}) (map[string]e2eHit, error) {
-	out := map[string]e2eHit{}
+func bm25E2eSearch(w *cq.Writer, rd *bluge.Reader, q bluge.Query, explain bool, desc interface{}) (map[string]bm25E2eHit, error) {
+	out := map[string]bm25E2eHit{}
 	var serr error
 	fin, pan := cq.Guard(30*time.Second, func() {
 		req := bluge.NewAllMatches(q)
@@ -983,7 +1027,7 @@ func e2eSearch(w *cq.Writer, rd *bluge.Reader, q bluge.Query, explain bool, desc
 				}
 				return true
 			})
-			out[id] = e2eHit{score: m.Score, expl: m.Explanation}
+			out[id] = bm25E2eHit{score: m.Score, expl: m.Explanation}
 			m, err = it.Next()
 		}
 		serr = err
@@ -992,15 +1036,15 @@ func e2eSearch(w *cq.Writer, rd *bluge.Reader, q bluge.Query, explain bool, desc
 		w.Abort("search-hang", "search did not return within 30s", desc)
 	}
 	if pan != nil {
-		w.OracleFail("search-panic", fmt.Sprint(pan), desc)
+		bm25Fail(w, "search-panic", fmt.Sprint(pan), desc)
 		return nil, nil
 	}
 	return out, serr
 }
 
-// shapeOf reads the leaves of an observed tree (Coq type shape); the model rebuilds every
+// bm25ShapeOf reads the leaves of an observed tree (Coq type shape); the model rebuilds every
 // inner value from them.
-func shapeOf(e *search.Explanation, t logTable) (string, bool) {
+func bm25ShapeOf(e *search.Explanation, t bm25LogTable) (string, bool) {
 	if e == nil {
 		return "", false
 	}
@@ -1008,7 +1052,7 @@ func shapeOf(e *search.Explanation, t logTable) (string, bool) {
 	case strings.HasPrefix(e.Message, "score(freq="):
 		var idf, tf, boost *search.Explanation
 		for _, c := range e.Children {
-			switch childName(c.Message) {
+			switch bm25ChildName(c.Message) {
 			case "idf":
 				idf = c
 			case "tf":
@@ -1029,55 +1073,55 @@ func shapeOf(e *search.Explanation, t logTable) (string, bool) {
 		if n != math.Trunc(n) || N != math.Trunc(N) || n < 0 || N < 0 || n >= 1<<53 || N >= 1<<53 || fr != math.Trunc(fr) || dl != math.Trunc(dl) || dl < 0 || math.Abs(fr) >= 1<<53 || dl >= 1<<32 {
 			return "", false
 		}
-		t.add(idfArgMirror(uint64(n), uint64(N)))
-		return fmt.Sprintf("(STerm %s %s %s %s %s %s %s %s)", fb(tf.Children[1].Value), fb(tf.Children[2].Value), fb(bo), fb(tf.Children[4].Value),
+		t.add(bm25IdfArgMirror(uint64(n), uint64(N)))
+		return fmt.Sprintf("(STerm %s %s %s %s %s %s %s %s)", bm25Fb(tf.Children[1].Value), bm25Fb(tf.Children[2].Value), bm25Fb(bo), bm25Fb(tf.Children[4].Value),
 			cq.U(uint64(n)), cq.U(uint64(N)), cq.Z(int64(fr)), cq.U(uint64(dl))), true
 	case e.Message == "sum of:":
 		parts := make([]string, len(e.Children))
 		for i, c := range e.Children {
-			s, ok := shapeOf(c, t)
+			s, ok := bm25ShapeOf(c, t)
 			if !ok {
 				return "", false
 			}
 			parts[i] = s
 		}
-		return fmt.Sprintf("(SComposite %s %s)", fb(1), cq.List(parts)), true
+		return fmt.Sprintf("(SComposite %s %s)", bm25Fb(1), cq.List(parts)), true
 	case e.Message == "computed as boost * sum":
 		if len(e.Children) != 2 || e.Children[1].Message != "sum of:" {
 			return "", false
 		}
 		parts := make([]string, len(e.Children[1].Children))
 		for i, c := range e.Children[1].Children {
-			s, ok := shapeOf(c, t)
+			s, ok := bm25ShapeOf(c, t)
 			if !ok {
 				return "", false
 			}
 			parts[i] = s
 		}
-		return fmt.Sprintf("(SComposite %s %s)", fb(e.Children[0].Value), cq.List(parts)), true
+		return fmt.Sprintf("(SComposite %s %s)", bm25Fb(e.Children[0].Value), cq.List(parts)), true
 	case e.Message == "constant" && len(e.Children) == 0:
-		return fmt.Sprintf("(SConstant %s false)", fb(e.Value)), true
+		return fmt.Sprintf("(SConstant %s false)", bm25Fb(e.Value)), true
 	}
 	return "", false
 }
 
-// termLeaves collects the term-score nodes of a tree as (n, freq, boost, value).
-type termLeaf struct {
+// bm25TermLeaves collects the term-score nodes of a tree as (n, freq, boost, value).
+type bm25TermLeaf struct {
 	n, freq uint64
 	boost   float64
 	value   float64
 }
 
-func termLeaves(e *search.Explanation, out *[]termLeaf) {
+func bm25TermLeaves(e *search.Explanation, out *[]bm25TermLeaf) {
 	if e == nil {
 		return
 	}
 	if strings.HasPrefix(e.Message, "score(freq=") {
-		var l termLeaf
+		var l bm25TermLeaf
 		l.boost = 1
 		l.value = e.Value
 		for _, c := range e.Children {
-			switch childName(c.Message) {
+			switch bm25ChildName(c.Message) {
 			case "idf":
 				if len(c.Children) == 2 {
 					l.n = uint64(c.Children[0].Value)
@@ -1094,7 +1138,7 @@ func termLeaves(e *search.Explanation, out *[]termLeaf) {
 		return
 	}
 	for _, c := range e.Children {
-		termLeaves(c, out)
+		bm25TermLeaves(c, out)
 	}
 }
 
@@ -1118,10 +1162,10 @@ func bm25E2E(o Opts, rng *rand.Rand, w *cq.Writer, scale int) error {
 	rounds := 2 * scale
 	for r := 0; r < rounds; r++ {
 		nd := 14 + rng.Intn(14)
-		docs := make([]*e2eDoc, nd)
+		docs := make([]*bm25E2eDoc, nd)
 		lens := []int{1, 2, 3, 5, 5, 8, 8, 8, 13, 20, 40}
 		for i := range docs {
-			d := &e2eDoc{id: fmt.Sprintf("d%d", i), counts: map[string]map[string]int{"body": {}, "title": {}}}
+			d := &bm25E2eDoc{id: fmt.Sprintf("d%d", i), counts: map[string]map[string]int{"body": {}, "title": {}}}
 			l := lens[rng.Intn(len(lens))]
 			for k := 0; k < l; k++ {
 				t := pickTerm()
@@ -1151,7 +1195,12 @@ func bm25E2E(o Opts, rng *rand.Rand, w *cq.Writer, scale int) error {
 				docs[1].counts["body"][t]++
 			}
 		}
-		wr, err := bluge.OpenWriter(bluge.InMemoryOnlyConfig())
+		cfg := bluge.InMemoryOnlyConfig()
+		perField := r%2 == 1
+		if perField { // config.go:109-114, search.go:185-190: per-field similarity for norms and scoring
+			cfg.PerFieldSimilarity["title"] = similarity.NewBM25SimilarityBK1(0.3, 2.0)
+		}
+		wr, err := bluge.OpenWriter(cfg)
 		if err != nil {
 			return err
 		}
@@ -1171,16 +1220,16 @@ func bm25E2E(o Opts, rng *rand.Rand, w *cq.Writer, scale int) error {
 			return err
 		}
 		// ground truth statistics
-		fieldStats := map[string]*collStats{}
+		fieldStats := map[string]*bm25CollStats{}
 		df := map[string]map[string]uint64{"body": {}, "title": {}}
-		flen := func(d *e2eDoc, f string) int {
+		flen := func(d *bm25E2eDoc, f string) int {
 			if f == "body" {
 				return len(d.body)
 			}
 			return len(d.title)
 		}
 		for _, f := range []string{"body", "title"} {
-			st := &collStats{}
+			st := &bm25CollStats{}
 			for _, d := range docs {
 				if flen(d, f) > 0 {
 					st.docCount++
@@ -1192,7 +1241,12 @@ func bm25E2E(o Opts, rng *rand.Rand, w *cq.Writer, scale int) error {
 			}
 			fieldStats[f] = st
 		}
-		k1, b := 1.2, 0.75
+		kb := func(field string) (float64, float64) {
+			if perField && field == "title" {
+				return 2.0, 0.3
+			}
+			return 1.2, 0.75
+		}
 		defaultsSeen := false
 
 		// -- term queries
@@ -1212,12 +1266,12 @@ func bm25E2E(o Opts, rng *rand.Rand, w *cq.Writer, scale int) error {
 		for _, f := range []string{"body", "title"} {
 			for _, t := range append(append([]string{}, vocab...), "zulu") {
 				for _, boost := range []float64{0, 2, 0.5, 3.7} {
-					q := &e2eQuery{kind: "term", field: f, term: t, boost: boost}
-					plain, err := e2eSearch(w, rd, q.build(), false, q.desc())
+					q := &bm25E2eQuery{kind: "term", field: f, term: t, boost: boost}
+					plain, err := bm25E2eSearch(w, rd, q.build(), false, q.desc())
 					if err != nil {
 						return err
 					}
-					expl, err := e2eSearch(w, rd, q.build(), true, q.desc())
+					expl, err := bm25E2eSearch(w, rd, q.build(), true, q.desc())
 					if err != nil {
 						return err
 					}
@@ -1236,7 +1290,7 @@ func bm25E2E(o Opts, rng *rand.Rand, w *cq.Writer, scale int) error {
 						want := d.counts[f][t] > 0
 						w.OracleEval(1)
 						if got != want {
-							w.OracleFail("e2e-term-match-set", fmt.Sprintf("doc %s matched=%v, contains term=%v", d.id, got, want), q.desc())
+							bm25Fail(w, "e2e-term-match-set", fmt.Sprintf("doc %s matched=%v, contains term=%v", d.id, got, want), q.desc())
 						}
 					}
 					emitted := 0
@@ -1251,40 +1305,41 @@ func bm25E2E(o Opts, rng *rand.Rand, w *cq.Writer, scale int) error {
 						meta := map[string]interface{}{"query": q.desc(), "doc": d.id, "freq": freq, "dl": dl, "n": n, "N": fieldStats[f].docCount, "sumTTF": fieldStats[f].sumTTF, "score": h.score}
 						w.OracleEval(1)
 						if !(h.score > 0) || math.IsInf(h.score, 0) || math.IsNaN(h.score) {
-							w.OracleFail("law-score-positive-finite", fmt.Sprintf("score %v", h.score), meta)
+							bm25Fail(w, "law-score-positive-finite", fmt.Sprintf("score %v", h.score), meta)
 						}
 						lawHits = append(lawHits, lawHit{n, freq, dl, eb, h.score, fmt.Sprintf("%s:%s^%v@%s", f, t, eb, d.id)})
 						he, ok := expl[d.id]
 						w.OracleEval(1)
 						if !ok || he.expl == nil {
-							w.OracleFail("e2e-explain-missing", "hit without explanation when ExplainScores is set", meta)
+							bm25Fail(w, "e2e-explain-missing", "hit without explanation when ExplainScores is set", meta)
 							continue
 						}
 						if math.Float64bits(he.expl.Value) != math.Float64bits(h.score) || math.Float64bits(he.score) != math.Float64bits(h.score) {
-							w.OracleFail("explain-root-not-score", fmt.Sprintf("explanation value %v, score with explanation %v, score without %v", he.expl.Value, he.score, h.score), meta)
+							bm25Fail(w, "explain-root-not-score", fmt.Sprintf("explanation value %v, score with explanation %v, score without %v", he.expl.Value, he.score, h.score), meta)
 						}
-						checkTree(w, he.expl, meta)
-						if !defaultsSeen {
-							var lv []termLeaf
-							termLeaves(he.expl, &lv)
+						bm25CheckTree(w, he.expl, meta)
+						if !defaultsSeen && f == "body" {
+							var lv []bm25TermLeaf
+							bm25TermLeaves(he.expl, &lv)
 							if len(he.expl.Children) >= 2 {
 								tf := he.expl.Children[len(he.expl.Children)-1]
 								if len(tf.Children) == 5 {
-									w.Add(fmt.Sprintf("CDefaults %s %s", fb(tf.Children[1].Value), fb(tf.Children[2].Value)), "defaults", true,
+									bm25Add(w, fmt.Sprintf("CDefaults %s %s", bm25Fb(tf.Children[1].Value), bm25Fb(tf.Children[2].Value)), "defaults", true,
 										map[string]interface{}{"k1": tf.Children[1].Value, "b": tf.Children[2].Value})
 									defaultsSeen = true
 								}
 							}
 						}
-						if emitted < 3 || rng.Intn(6) == 0 {
+						if emitted < 1 || rng.Intn(8) == 0 {
 							emitted++
-							p := scoreParams{k1: k1, b: b, boost: eb, st: fieldStats[f], n: n}
-							w.Add(fmt.Sprintf("CE2E %s %s %d %d %s", p.coq(), p.logs().coq(), freq, dl, fb(h.score)), "e2e-term", true, meta)
-							lt := logTable{}
-							if shp, ok := shapeOf(he.expl, lt); ok {
-								w.Add(fmt.Sprintf("CTree %s %s %s", shp, lt.coq(), coqTree(he.expl)), "e2e-term-tree", true, meta)
+							k1, b := kb(f)
+							p := bm25ScoreParams{k1: k1, b: b, boost: eb, st: fieldStats[f], n: n}
+							bm25Add(w, fmt.Sprintf("CE2E %s %s %d %d %s", p.coq(), p.logs().coq(), freq, dl, bm25Fb(h.score)), "e2e-term", true, meta)
+							lt := bm25LogTable{}
+							if shp, ok := bm25ShapeOf(he.expl, lt); ok {
+								bm25Add(w, fmt.Sprintf("CTree %s %s %s", shp, lt.coq(), bm25CoqTree(he.expl)), "e2e-term-tree", true, meta)
 							} else {
-								w.Add(fmt.Sprintf("CTree (SConstant 0 false) [] %s", coqTree(he.expl)), "e2e-tree-unknown-shape", true, meta)
+								bm25Add(w, fmt.Sprintf("CTree (SConstant 0 false) [] %s", bm25CoqTree(he.expl)), "e2e-tree-unknown-shape", true, meta)
 							}
 						}
 					}
@@ -1299,22 +1354,22 @@ func bm25E2E(o Opts, rng *rand.Rand, w *cq.Writer, scale int) error {
 					continue
 				}
 				who := []string{a.who, c.who}
-				if a.n == c.n && a.dl == c.dl && a.boost == c.boost && a.freq < c.freq && fieldsEqualStats(a.who, c.who) {
+				if a.n == c.n && a.dl == c.dl && a.boost == c.boost && a.freq < c.freq && bm25FieldsEqualStats(a.who, c.who) {
 					w.OracleEval(1)
 					if !(c.score > a.score) {
-						w.OracleFail("law-mono-freq", fmt.Sprintf("freq %d scores %v, freq %d scores %v", a.freq, a.score, c.freq, c.score), who)
+						bm25Fail(w, "law-mono-freq", fmt.Sprintf("freq %d scores %v, freq %d scores %v", a.freq, a.score, c.freq, c.score), who)
 					}
 				}
-				if a.n == c.n && a.freq == c.freq && a.boost == c.boost && a.dl < c.dl && fieldsEqualStats(a.who, c.who) {
+				if a.n == c.n && a.freq == c.freq && a.boost == c.boost && a.dl < c.dl && bm25FieldsEqualStats(a.who, c.who) {
 					w.OracleEval(1)
 					if !(c.score < a.score) {
-						w.OracleFail("law-anti-len", fmt.Sprintf("dl %d scores %v, dl %d scores %v", a.dl, a.score, c.dl, c.score), who)
+						bm25Fail(w, "law-anti-len", fmt.Sprintf("dl %d scores %v, dl %d scores %v", a.dl, a.score, c.dl, c.score), who)
 					}
 				}
-				if a.dl == c.dl && a.freq == c.freq && a.boost == c.boost && a.n < c.n && fieldsEqualStats(a.who, c.who) {
+				if a.dl == c.dl && a.freq == c.freq && a.boost == c.boost && a.n < c.n && bm25FieldsEqualStats(a.who, c.who) {
 					w.OracleEval(1)
 					if !(a.score > c.score) {
-						w.OracleFail("law-anti-df", fmt.Sprintf("n %d scores %v, n %d scores %v", a.n, a.score, c.n, c.score), who)
+						bm25Fail(w, "law-anti-df", fmt.Sprintf("n %d scores %v, n %d scores %v", a.n, a.score, c.n, c.score), who)
 					}
 				}
 			}
@@ -1330,27 +1385,27 @@ func bm25E2E(o Opts, rng *rand.Rand, w *cq.Writer, scale int) error {
 					s2, ok := other[id]
 					w.OracleEval(1)
 					if !ok {
-						w.OracleFail("law-boost-linear", "document no longer matches when the query is boosted", []interface{}{k.field, k.term, c, id})
+						bm25Fail(w, "law-boost-linear", "document no longer matches when the query is boosted", []interface{}{k.field, k.term, c, id})
 						continue
 					}
 					if c != 3.7 && s2 != c*s {
-						w.OracleFail("law-boost-linear", fmt.Sprintf("term query score %v, with boost %v score %v", s, c, s2), []interface{}{k.field, k.term, c, id})
+						bm25Fail(w, "law-boost-linear", fmt.Sprintf("term query score %v, with boost %v score %v", s, c, s2), []interface{}{k.field, k.term, c, id})
 					}
 					if c == 3.7 && (s2 < s || math.Abs(s2-c*s) > 64*c*s/(1<<53)*8) {
-						w.OracleFail("law-boost-linear", fmt.Sprintf("term query score %v, with boost %v score %v", s, c, s2), []interface{}{k.field, k.term, c, id})
+						bm25Fail(w, "law-boost-linear", fmt.Sprintf("term query score %v, with boost %v score %v", s, c, s2), []interface{}{k.field, k.term, c, id})
 					}
 				}
 			}
 		}
 
 		// -- compound queries
-		var genQ func(depth int) *e2eQuery
-		genTerm := func() *e2eQuery {
+		var genQ func(depth int) *bm25E2eQuery
+		genTerm := func() *bm25E2eQuery {
 			f := "body"
 			if rng.Intn(4) == 0 {
 				f = "title"
 			}
-			q := &e2eQuery{kind: "term", field: f, term: pickTerm()}
+			q := &bm25E2eQuery{kind: "term", field: f, term: pickTerm()}
 			switch rng.Intn(4) {
 			case 0:
 				q.boost = 2
@@ -1359,7 +1414,7 @@ func bm25E2E(o Opts, rng *rand.Rand, w *cq.Writer, scale int) error {
 			}
 			return q
 		}
-		genQ = func(depth int) *e2eQuery {
+		genQ = func(depth int) *bm25E2eQuery {
 			switch k := rng.Intn(10); {
 			case depth <= 0 || k < 3:
 				return genTerm()
@@ -1368,12 +1423,12 @@ func bm25E2E(o Opts, rng *rand.Rand, w *cq.Writer, scale int) error {
 				if rng.Intn(2) == 0 {
 					words = append(words, pickTerm())
 				}
-				q := &e2eQuery{kind: "match", field: "body", text: strings.Join(words, " "), and: rng.Intn(2) == 0}
+				q := &bm25E2eQuery{kind: "match", field: "body", text: strings.Join(words, " "), and: rng.Intn(2) == 0}
 				return q
 			case k == 4 && depth < 2:
-				return &e2eQuery{kind: "matchall"}
+				return &bm25E2eQuery{kind: "matchall"}
 			}
-			q := &e2eQuery{kind: "bool"}
+			q := &bm25E2eQuery{kind: "bool"}
 			for i, m := 0, rng.Intn(3); i < m; i++ {
 				q.musts = append(q.musts, genQ(depth-1))
 			}
@@ -1397,13 +1452,13 @@ func bm25E2E(o Opts, rng *rand.Rand, w *cq.Writer, scale int) error {
 		for qi := 0; qi < 45; qi++ {
 			q := genQ(2)
 			if q.kind == "term" {
-				q = &e2eQuery{kind: "bool", shoulds: []*e2eQuery{q, genTerm()}}
+				q = &bm25E2eQuery{kind: "bool", shoulds: []*bm25E2eQuery{q, genTerm()}}
 			}
-			plain, err := e2eSearch(w, rd, q.build(), false, q.desc())
+			plain, err := bm25E2eSearch(w, rd, q.build(), false, q.desc())
 			if err != nil {
 				return err
 			}
-			expl, err := e2eSearch(w, rd, q.build(), true, q.desc())
+			expl, err := bm25E2eSearch(w, rd, q.build(), true, q.desc())
 			if err != nil {
 				return err
 			}
@@ -1423,22 +1478,22 @@ func bm25E2E(o Opts, rng *rand.Rand, w *cq.Writer, scale int) error {
 				meta := map[string]interface{}{"query": q.desc(), "doc": id, "score": h.score}
 				w.OracleEval(1)
 				if !(h.score > 0) || math.IsInf(h.score, 0) || math.IsNaN(h.score) {
-					w.OracleFail("law-score-positive-finite", fmt.Sprintf("score %v", h.score), meta)
+					bm25Fail(w, "law-score-positive-finite", fmt.Sprintf("score %v", h.score), meta)
 				}
 				he, ok := expl[id]
 				w.OracleEval(1)
 				if !ok || he.expl == nil {
-					w.OracleFail("e2e-explain-missing", "hit without explanation when ExplainScores is set", meta)
+					bm25Fail(w, "e2e-explain-missing", "hit without explanation when ExplainScores is set", meta)
 					continue
 				}
 				if math.Float64bits(he.expl.Value) != math.Float64bits(h.score) || math.Float64bits(he.score) != math.Float64bits(h.score) {
-					w.OracleFail("explain-root-not-score", fmt.Sprintf("explanation value %v, score with explanation %v, score without %v", he.expl.Value, he.score, h.score), meta)
+					bm25Fail(w, "explain-root-not-score", fmt.Sprintf("explanation value %v, score with explanation %v, score without %v", he.expl.Value, he.score, h.score), meta)
 				}
-				checkTree(w, he.expl, meta)
+				bm25CheckTree(w, he.expl, meta)
 				// "its matching parts": every term-score node of the tree is the score the term query
 				// yields for this document on its own
-				var lv []termLeaf
-				termLeaves(he.expl, &lv)
+				var lv []bm25TermLeaf
+				bm25TermLeaves(he.expl, &lv)
 				for _, l := range lv {
 					found := false
 					for k, sc := range termScores {
@@ -1449,16 +1504,16 @@ func bm25E2E(o Opts, rng *rand.Rand, w *cq.Writer, scale int) error {
 					}
 					w.OracleEval(1)
 					if !found && (l.boost == 1 || l.boost == 2 || l.boost == 0.5 || l.boost == 3.7) {
-						w.OracleFail("law-composite-parts", fmt.Sprintf("a term part scores %v inside the compound query but no term query scores that for the document", l.value), meta)
+						bm25Fail(w, "law-composite-parts", fmt.Sprintf("a term part scores %v inside the compound query but no term query scores that for the document", l.value), meta)
 					}
 				}
 				if emitted < 2 || rng.Intn(8) == 0 {
 					emitted++
-					lt := logTable{}
-					if shp, ok := shapeOf(he.expl, lt); ok {
-						w.Add(fmt.Sprintf("CTree %s %s %s", shp, lt.coq(), coqTree(he.expl)), "e2e-tree", len(lv) > 1, meta)
+					lt := bm25LogTable{}
+					if shp, ok := bm25ShapeOf(he.expl, lt); ok {
+						bm25Add(w, fmt.Sprintf("CTree %s %s %s", shp, lt.coq(), bm25CoqTree(he.expl)), "e2e-tree", len(lv) > 1, meta)
 					} else {
-						w.Add(fmt.Sprintf("CTree (SConstant 0 false) [] %s", coqTree(he.expl)), "e2e-tree-unknown-shape", true, meta)
+						bm25Add(w, fmt.Sprintf("CTree (SConstant 0 false) [] %s", bm25CoqTree(he.expl)), "e2e-tree-unknown-shape", true, meta)
 					}
 				}
 			}
@@ -1468,7 +1523,7 @@ func bm25E2E(o Opts, rng *rand.Rand, w *cq.Writer, scale int) error {
 				base = 1
 			}
 			q2 := q.withBoost(base * 2)
-			plain2, err := e2eSearch(w, rd, q2.build(), false, q2.desc())
+			plain2, err := bm25E2eSearch(w, rd, q2.build(), false, q2.desc())
 			if err != nil {
 				return err
 			}
@@ -1481,7 +1536,7 @@ func bm25E2E(o Opts, rng *rand.Rand, w *cq.Writer, scale int) error {
 						if q.kind == "match" {
 							key = "match-query-boost-squared"
 						}
-						w.OracleFail(key, fmt.Sprintf("score %v with boost %v, score %v with boost %v", plain[id].score, base, s2.score, base*2),
+						bm25Fail(w, key, fmt.Sprintf("score %v with boost %v, score %v with boost %v", plain[id].score, base, s2.score, base*2),
 							map[string]interface{}{"query": q.desc(), "doc": id})
 					}
 				}
@@ -1493,8 +1548,8 @@ func bm25E2E(o Opts, rng *rand.Rand, w *cq.Writer, scale int) error {
 	return nil
 }
 
-// fieldsEqualStats: two hits share collection statistics when they come from the same field
+// bm25FieldsEqualStats: two hits share collection statistics when they come from the same field
 // ("field:term^boost@doc").
-func fieldsEqualStats(a, b string) bool {
+func bm25FieldsEqualStats(a, b string) bool {
 	return a[:strings.Index(a, ":")] == b[:strings.Index(b, ":")]
 }
